@@ -4,6 +4,7 @@ package server
 
 import (
 	"bytes"
+	"context"
 	"encoding/json"
 	"fmt"
 	"os"
@@ -15,6 +16,8 @@ import (
 	"time"
 
 	"github.com/hashicorp/raft"
+
+	client "github.com/liftbridge-io/liftbridge-api/v2/go"
 
 	kit "github.com/liftbridge-io/liftbridge/internal/verifkit"
 )
@@ -92,7 +95,7 @@ func TestVerifC18Single(t *testing.T) {
 	rep.Assume("the workload never deletes __activity or makes it read-only (the API refuses the former; the latter stops the feed by configuration)")
 	rep.Assume("what a subscriber from offset 0 is served = the committed part of the __activity partition log on its leader (delivery of committed messages is C03's subject)")
 	root := kit.NewRNG(kit.Mix(kit.Seed(), 0xC18))
-	n := kit.Scale(16, 72)
+	n := kit.Scale(32, 360)
 	seeds := make([]uint64, n)
 	for i := range seeds {
 		seeds[i] = root.Uint64()
@@ -117,7 +120,7 @@ func TestVerifC18Single(t *testing.T) {
 //
 // trailing > 0 scales Raft's TrailingLogs (10240 in production, a Raft default
 // Liftbridge does not expose) down so that the snapshot also compacts the log.
-func c18Snapshot(rep *kit.Report, unit string, run int, seed uint64, variant, trailing int) {
+func c18Snapshot(rep *kit.Report, unit string, run int, seed uint64, variant, trailing, bulk int) {
 	e := c18NewEnv(rep, unit, run, seed)
 	rng := e.rng
 	c, _, err := vfSingle("c18n", e.mut(nil))
@@ -144,13 +147,31 @@ func c18Snapshot(rep *kit.Report, unit string, run int, seed uint64, variant, tr
 		e.account()
 		return
 	}
-	if rng.Bool() || trailing > 0 {
+	if bulk > 0 {
+		// enough committed entries (barrier + operation + PUBLISH_ACTIVITY per
+		// call) for Raft's real TrailingLogs (10240) to truncate the log at
+		// the snapshot
+		e.doOp(c18Op{Kind: "create", Stream: "bulk", NParts: 1, RF: 1})
+		ctx := context.Background()
+		for i := 0; i < bulk && !bad(); i++ {
+			if _, err := srv.api.SetStreamReadonly(ctx, &client.SetStreamReadonlyRequest{Name: "bulk", Readonly: i%2 == 0}); err != nil {
+				e.inconclusive("bulk operation failed: " + err.Error())
+			}
+		}
+		e.step("bulk(readonly x%d,commit=%d)", bulk, srv.getRaft().getCommitIndex())
+	}
+	if rng.Bool() || trailing > 0 || bulk > 0 {
 		// let the dispatcher record everything first.  With a scaled-down
 		// TrailingLogs this is required for a fair scenario: the truncation
 		// must only remove entries whose events were published and recorded
 		// (in production the dispatcher would have to lag >10240 entries).
-		target := e.absorbStore(srv, "a")
-		if !vfWait(40*time.Second, func() bool { return srv.activity.LastPublishedRaftIndex()+1 >= target }) && trailing > 0 {
+		e.absorbStore(srv, "a")
+		var target uint64
+		if ops, _, _ := e.listedOps(); len(ops) > 0 {
+			target = ops[len(ops)-1].Index
+		}
+		ok := vfWait(90*time.Second, func() bool { return srv.activity.LastPublishedRaftIndex() >= target })
+		if !ok && (trailing > 0 || bulk > 0) {
 			e.inconclusive("dispatcher did not catch up before the snapshot")
 			e.account()
 			return
@@ -179,14 +200,20 @@ func c18Snapshot(rep *kit.Report, unit string, run int, seed uint64, variant, tr
 	case 1:
 		e.mu.Lock()
 		e.forceFail = 2
+		nf := e.nFail
 		e.mu.Unlock()
 		e.doOp(c18Op{Kind: "create", Stream: fmt.Sprintf("late%d", run), NParts: 1, RF: 1})
+		// stop only once the dispatcher sits in the back-off of that event
+		vfWait(20*time.Second, func() bool {
+			e.mu.Lock()
+			defer e.mu.Unlock()
+			return e.nFail > nf
+		})
 	case 2:
 		for i, n := 0, rng.Range(2, 5); i < n && !bad(); i++ {
 			e.doOp(e.genOp(1, false))
 		}
 	}
-	c18Stage("restarting")
 	if !e.restartNode("a") || e.leader() == nil {
 		e.account()
 		return
@@ -209,7 +236,7 @@ func TestVerifC18Snapshot(t *testing.T) {
 	defer rep.Write()
 	rep.SetRule(c18Rule + " ; snapshot unit: a Raft snapshot is forced (raft.Snapshot()) and the server restarted right after it (variant 0), after one more operation whose event is held back by two injected publish failures (variant 1: no PUBLISH_ACTIVITY entry follows the snapshot) or after 2..5 more operations (variant 2)")
 	root := kit.NewRNG(kit.Mix(kit.Seed(), 0xC185))
-	n := kit.Scale(9, 36)
+	n := kit.Scale(12, 90)
 	seeds := make([]uint64, n)
 	for i := range seeds {
 		seeds[i] = root.Uint64()
@@ -218,7 +245,7 @@ func TestVerifC18Snapshot(t *testing.T) {
 		if rep.NumViolations() >= 6 || c18Skip(i) {
 			return
 		}
-		c18Snapshot(rep, "snapshot", i, seeds[i], i%3, 0)
+		c18Snapshot(rep, "snapshot", i, seeds[i], i%3, 0, 0)
 	})
 }
 
@@ -286,7 +313,8 @@ func c18Cluster(rep *kit.Report, run int, seed uint64) {
 			}
 			stopped = ""
 		}
-		if i == transferAt {
+		if i >= transferAt && transferAt >= 0 && stopped == "" {
+			transferAt = -1
 			if l := e.leader(); l != nil {
 				from := e.nodeOf(l)
 				if err := l.getRaft().LeadershipTransfer().Error(); err != nil {
@@ -318,7 +346,7 @@ func TestVerifC18Cluster(t *testing.T) {
 	rep.SetRule(c18Rule + " ; cluster unit: 3 servers (activity stream replicated on all, ack policy ALL), the metadata leader is stopped at a seeded position (the new controller resumes from the replicated last-published index), leadership is also transferred gracefully (2/3 of the scenarios) and the stopped server is restarted (3/4)")
 	rep.Assume("a server is removed with Server.Stop(); NATS-level network partitions are not simulated")
 	root := kit.NewRNG(kit.Mix(kit.Seed(), 0xC18C))
-	n := kit.Scale(2, 10)
+	n := kit.Scale(4, 40)
 	seeds := make([]uint64, n)
 	for i := range seeds {
 		seeds[i] = root.Uint64()
@@ -338,6 +366,7 @@ type c18ChildSpec struct {
 	Seed     uint64 `json:"seed"`
 	Variant  int    `json:"variant"`
 	Trailing int    `json:"trailing"`
+	Bulk     int    `json:"bulk"`
 }
 
 // TestVerifC18Child runs ONE compaction scenario; the server process dying is
@@ -354,7 +383,7 @@ func TestVerifC18Child(t *testing.T) {
 	rep := kit.NewReport("C18", "compaction-child")
 	defer rep.Write()
 	c18Stage("started")
-	c18Snapshot(rep, "compaction", spec.Run, spec.Seed, spec.Variant, spec.Trailing)
+	c18Snapshot(rep, "compaction", spec.Run, spec.Seed, spec.Variant, spec.Trailing, spec.Bulk)
 }
 
 var c18FrameRe = regexp.MustCompile(`(?m)^(\S*liftbridge/server\.\S*)\(.*\)\n\t(\S+\.go):(\d+)`)
@@ -374,11 +403,16 @@ func TestVerifC18Compaction(t *testing.T) {
 	dir := vfWorkDir("c18-children")
 	defer os.RemoveAll(dir)
 	root := kit.NewRNG(kit.Mix(kit.Seed(), 0xC18D))
-	n := kit.Scale(4, 16)
+	n := kit.Scale(4, 20)
 	specs := make([]c18ChildSpec, n)
 	for i := range specs {
 		specs[i] = c18ChildSpec{Run: i, Seed: root.Uint64(), Variant: 1 + i%2, Trailing: root.Range(2, 16)}
 	}
+	// unscaled scenarios: Raft's own TrailingLogs, >10240 committed entries
+	for i := 0; i < kit.Scale(1, 2); i++ {
+		specs = append(specs, c18ChildSpec{Run: n + i, Seed: root.Uint64(), Variant: 1, Trailing: 0, Bulk: 3700 + 200*i})
+	}
+	n = len(specs)
 	kit.Parallel(n, 4, func(i int) {
 		if rep.NumViolations() >= 4 || c18Skip(i) {
 			return
@@ -409,12 +443,12 @@ func TestVerifC18Compaction(t *testing.T) {
 			tail = tail[len(tail)-6000:]
 		}
 		var child struct {
-			Completed    bool                 `json:"completed"`
-			Counts       map[string]int64     `json:"counts"`
-			Violations   []*kit.Violation     `json:"violations"`
-			Inconclusive []string             `json:"inconclusive"`
-			Samples      []map[string]any     `json:"samples"`
-			Distinct     int                  `json:"distinct_nontrivial"`
+			Completed    bool             `json:"completed"`
+			Counts       map[string]int64 `json:"counts"`
+			Violations   []*kit.Violation `json:"violations"`
+			Inconclusive []string         `json:"inconclusive"`
+			Samples      []map[string]any `json:"samples"`
+			Distinct     int              `json:"distinct_nontrivial"`
 		}
 		if b, err := os.ReadFile(out); err == nil {
 			json.Unmarshal(b, &child)
@@ -429,7 +463,11 @@ func TestVerifC18Compaction(t *testing.T) {
 		case child.Completed:
 			rep.Count("children_completed", 1)
 			for k, v := range child.Counts {
-				if k != "inconclusive" {
+				switch k {
+				case "inconclusive":
+				case "slowest_scenario_s":
+					rep.Max(k, v)
+				default:
 					rep.Count(k, v)
 				}
 			}
@@ -461,14 +499,25 @@ func TestVerifC18Compaction(t *testing.T) {
 			replay["child_output_tail"] = tail
 			rep.Nontrivial(fmt.Sprintf("child %d crash %s variant %d", i, fn, spec.Variant))
 			rep.Sample(replay)
-			if string(stage) == "restarting" {
+			switch string(stage) {
+			case "stopping":
+				rep.Violation("C18:compaction:crash-while-stopping:"+fn,
+					fmt.Sprintf("the server process died (%s, first server frame %s) inside Server.Stop(): the activity dispatcher read the Raft log store after Stop had closed it", m, fn), replay)
+			case "starting":
 				rep.Violation("C18:compaction:controller-crash-after-snapshot-restart:"+fn,
-					fmt.Sprintf("the server process died (%s, first server frame %s) when it became controller again after a restart from a Raft snapshot that had truncated the Raft log (TrailingLogs scaled to %d): the last-published activity index is not part of the snapshot, the dispatcher restarts from Raft index 1 and panics on the missing log entry; no later operation is ever listed", m, fn, spec.Trailing), replay)
-			} else {
+					fmt.Sprintf("the server process died (%s, first server frame %s) when it became controller again after a restart from a Raft snapshot that had truncated the Raft log (%s): the last-published activity index is not part of the snapshot, the dispatcher restarts from Raft index 1 and panics on the missing log entry; no later operation is ever listed", m, fn, c18TrailingText(spec)), replay)
+			default:
 				rep.Violation("C18:compaction:server-crash:"+fn, fmt.Sprintf("the server process died (%s, first server frame %s) at stage %s", m, fn, stage), replay)
 			}
 		}
 	})
+}
+
+func c18TrailingText(spec c18ChildSpec) string {
+	if spec.Trailing > 0 {
+		return fmt.Sprintf("TrailingLogs scaled to %d", spec.Trailing)
+	}
+	return fmt.Sprintf("Raft's own TrailingLogs=10240, %d bulk operations committed before the snapshot", spec.Bulk)
 }
 
 // c18Skip: C18_ONLY=<run> replays a single scenario of a unit (debugging /
